@@ -31,7 +31,7 @@ def shards(tier):
 def required_counters(tier):
     d = {f'monitor:to_mask:{c}:center': 10 for c in gen.MASKABLE + ['CompoundPixelRegion']}
     d.update({f'monitor:to_mask:{c}:subpixels': 10 for c in gen.SIMPLE_PIX})
-    d.update({'judged:mask-pixels': 10000, 'judged:n1-equals-center': 50, 'judged:unsupported-raises': 50, 'judged:invalid-raises': 50, 'history-steps': 50, 'result-edited-then-requested-again': 50})
+    d.update({'judged:mask-pixels': 10000, 'judged:n1-equals-center': 50, 'judged:unsupported-raises': 50, 'judged:mask-vs-own-contains': 5000, 'judged:invalid-raises': 50, 'history-steps': 50, 'result-edited-then-requested-again': 50})
     return d
 
 
@@ -233,7 +233,8 @@ def on_outline(shape, X, Y):
 UNSUPPORTED = [('RectanglePixelRegion', 'exact', 5), ('PolygonPixelRegion', 'exact', 5), ('RegularPolygonPixelRegion', 'exact', 5),
                ('CircleAnnulusPixelRegion', 'exact', 5), ('EllipseAnnulusPixelRegion', 'exact', 5), ('RectangleAnnulusPixelRegion', 'exact', 5),
                ('CircleAnnulusPixelRegion', 'subpixels', 3), ('EllipseAnnulusPixelRegion', 'subpixels', 3),
-               ('RectangleAnnulusPixelRegion', 'subpixels', 3), ('compound', 'exact', 5), ('compound', 'subpixels', 3),
+               ('RectangleAnnulusPixelRegion', 'subpixels', 3), ('compound', 'exact', 5), ('compound', 'subpixels', 3), ('compound', 'subpixels', 1), ('compound', 'subpixels', 1),
+               ('CircleAnnulusPixelRegion', 'subpixels', 1), ('EllipseAnnulusPixelRegion', 'subpixels', 1), ('RectangleAnnulusPixelRegion', 'subpixels', 1),
                ('PointPixelRegion', 'center', 1), ('PointPixelRegion', 'subpixels', 2), ('PointPixelRegion', 'exact', 1),
                ('LinePixelRegion', 'center', 1), ('LinePixelRegion', 'exact', 1), ('TextPixelRegion', 'center', 1),
                ('TextPixelRegion', 'subpixels', 4), ('compound-with-unmaskable-operand', 'center', 1), ('compound-with-unmaskable-operand', 'center', 1),
